@@ -429,18 +429,14 @@ Definition rec_bottom : rec :=
         (fun _ => out_of_fuel) (fun _ => out_of_fuel).
 
 Section Parser.
-(* stm_leaks = true: `single_target_mode` is a parser-wide flag, so while the right-hand side `e`
-   of `target op= e` is parsed EVERY nested `expression()` call (arguments, parentheses, indices,
-   lambda bodies, ...) parses at BitwiseOr precedence (the behaviour of compiler.rs today).
-   stm_leaks = false: only the top level of `e` is parsed at BitwiseOr precedence. *)
-Variable stm_leaks : bool.
 Variable rules : tkind -> rule.
 Variable r : rec.
 
 (* fn expression *)
 Definition expression : M expr :=
   s <- get ;;
-  r_parse_precedence r (if p_stm s then PrecBitwiseOr else PrecAssignment).
+  (* nested in the operand of a compound assignment: any operator, but no assignment *)
+  r_parse_precedence r (if p_stm s then PrecOr else PrecAssignment).
 
 (* fn block *)
 Definition block : M (list stmt) :=
@@ -488,12 +484,10 @@ Definition parameter_list (right_delim : tkind) : M (list name) :=
 
 (* fn binary_assign: the right-hand side of `target op= e` *)
 Definition binary_assign : M expr :=
-  if stm_leaks then
-    set_stm true ;;;
-    e <- expression ;;
-    set_stm false ;;;
-    ret e
-  else r_parse_precedence r PrecBitwiseOr.
+  set_stm true ;;;
+  e <- r_parse_precedence r PrecBitwiseOr ;;
+  set_stm false ;;;
+  ret e.
 
 (* fn named_variable *)
 Definition named_variable (name : list byte) (can_assign : bool) : M expr :=
@@ -562,7 +556,14 @@ Definition lambda (can_assign : bool) : M expr :=
                   consume TBar "Expected ')' after parameters." ;;; ret ps
              else ret []) ;;
   lb <- match_token TLeftBrace ;;
-  body <- (if lb then b <- block ;; ret (LBlock b) else e <- expression ;; ret (LExpr e)) ;;
+  body <- (if lb then
+             (* the statements of the body are not part of an enclosing compound assignment *)
+             s <- get ;;
+             set_stm false ;;;
+             b <- block ;;
+             set_stm (p_stm s) ;;;
+             ret (LBlock b)
+           else e <- expression ;; ret (LExpr e)) ;;
   finalise_compiler ;;;
   ret (ELambda params body).
 
@@ -1061,23 +1062,20 @@ Definition step : rec :=
 
 End Parser.
 
-Fixpoint knot (stm_leaks : bool) (rules : tkind -> rule) (fuel : nat) : rec :=
+Fixpoint knot (rules : tkind -> rule) (fuel : nat) : rec :=
   match fuel with
   | O => rec_bottom
-  | S f => step stm_leaks rules (knot stm_leaks rules f)
+  | S f => step rules (knot rules f)
   end.
-
-(* THE switch for the single_target_mode behaviour of the reference parser (see Section Parser). *)
-Definition stm_leaks_ref : bool := true.
 
 (* Parser::new + the first advance() of fn parse *)
 Definition init_pstate (toks : list token) : pstate :=
   mkP default_token default_token toks false [new_comp FScript] [] [] None.
 
 (* fn parse *)
-Definition parse (stm_leaks : bool) (rules : tkind -> rule) (fuel : nat) : M program :=
+Definition parse (rules : tkind -> rule) (fuel : nat) : M program :=
   advance ;;;
-  p <- r_program_loop (knot stm_leaks rules fuel) ;;
+  p <- r_program_loop (knot rules fuel) ;;
   check_no_attributes ;;;
   ret p.
 
@@ -1090,25 +1088,17 @@ Definition run {A} (m : M A) (toks : list token) : presult A :=
 
 Definition default_fuel (toks : list token) : nat := 8 * length toks + 64.
 
-Definition parse_program_gen (stm_leaks : bool) (rules : tkind -> rule) (toks : list token)
-  : presult program :=
-  run (parse stm_leaks rules (default_fuel toks)) toks.
-
-Definition parse_program_with (rules : tkind -> rule) : list token -> presult program :=
-  parse_program_gen stm_leaks_ref rules.
+Definition parse_program_with (rules : tkind -> rule) (toks : list token) : presult program :=
+  run (parse rules (default_fuel toks)) toks.
 
 Definition parse_program : list token -> presult program := parse_program_with rules_ref.
 
 (* A single expression followed by Eof (used by the round-trip theorems): `expression()` at the top
    level of a script, then the next token must be Eof. *)
-Definition parse_expr_gen (stm_leaks : bool) (rules : tkind -> rule) (toks : list token)
-  : presult expr :=
+Definition parse_expr_with (rules : tkind -> rule) (toks : list token) : presult expr :=
   run (advance ;;;
-       e <- expression (knot stm_leaks rules (default_fuel toks)) ;;
+       e <- expression (knot rules (default_fuel toks)) ;;
        consume TEof "Expected end of expression." ;;;
        ret e) toks.
-
-Definition parse_expr_with (rules : tkind -> rule) : list token -> presult expr :=
-  parse_expr_gen stm_leaks_ref rules.
 
 Definition parse_expr : list token -> presult expr := parse_expr_with rules_ref.
